@@ -446,7 +446,7 @@ def oracle(ctx, scale):
         which = rng.choice(["FDD", "EFDD", "FSDD", "FDD_MS"])
         nch = rng.randint(4, 6) if which == "FDD_MS" else rng.randint(2, 6)
         fs = rng.choice([50.0, 100.0, 256.0, 1200.0])
-        nxseg = rng.choice([64, 128, 256])
+        nxseg = rng.choice([64, 128, 256, 101, 255])  # even and odd segment lengths
         df = fs / nxseg
         DF = rng.uniform(1.5, 4.0) * df
         f0 = rng.uniform(0.08, 0.15) * fs
@@ -540,6 +540,12 @@ def _class_case(ctx, prm):
         if sel_list != given:
             ctx.violation("caller-input-modified", f"{which}.mpe modified the caller's sel_freq list", inp)
         r = alg.result
+        # "a line of the spectral frequency grid": the grid of the estimator, one line every fs/nxseg from 0
+        fr = np.asarray(r.freq, float)
+        if fr.shape != (nxseg // 2 + 1,) or np.abs(fr - np.arange(nxseg // 2 + 1) * fs / nxseg).max() > 1e-12 * fs:
+            ctx.violation("class-frequency-grid", f"{which}: result.freq is not the estimator's grid k*fs/nxseg, k = 0..nxseg//2 (fs={fs}, nxseg={nxseg}): "
+                          f"spacing {fr[1] - fr[0] if len(fr) > 1 else None}, last line {fr[-1] if len(fr) else None}", inp)
+            return
         if which in ("EFDD", "FSDD"):
             if not first:
                 ctx.violation("first-stage-missing", f"{which}.mpe did not call FDD_mpe", inp)
